@@ -171,7 +171,7 @@ PROPS = {
     },
     "C03": {
         "level": "proof",
-        "lean_targets": ["LP.Props.C03", "LP.Props.C03Greatest"],
+        "lean_targets": ["LP.Props.C03", "LP.Props.C03Greatest", "LP.Props.C03Fp"],
         "harnesses": [{"name": "h_gcd", "quick": 6000, "thorough": 80000}],
         "select": lambda t: t[1] in ("gcd", "ugcd"),
         "nontrivial": lambda t, r: True,
@@ -307,7 +307,7 @@ PROPS = {
     },
     "C05": {
         "level": "proof",
-        "lean_targets": ["LP.Props.C05"],
+        "lean_targets": ["LP.Props.C05", "LP.Props.C03Fp"],
         "harnesses": [{"name": "h_factor", "quick": 600, "thorough": 6000}],
         "select": lambda t: t[1] == "fac",
         "nontrivial": lambda t, r: True,
